@@ -30,7 +30,10 @@ def scenario_list(tier, seed, focus):
                     'fail': rnd.choice([0, 0, 0, 1]),
                     'stamp': rnd.choice([0, 1, 2]) if focus == 'db' else rnd.choice([1, 2, 2, 3]),
                     'log': rnd.random() < 0.3,
-                    'spread_ms': rnd.choice([0, 0, 5, 30, 100])})
+                    'spread_ms': rnd.choice([0, 0, 5, 30, 100]),
+                    # every fourth scenario under controlled scheduling: all processes of all commands stop at every gate
+                    # of the hooked redo and a seeded scheduler (uniform or PCT priorities) lets one go at a time
+                    'sched': i % 4 == 3})
     return out
 
 
@@ -76,10 +79,15 @@ def run_scenario(sc, root, bindir, focus):
             argv = ['redo', '-j%d' % rnd.choice([1, 2, 4])] + [sp(t) for t in (rts if rnd.random() < 0.6 else rnd.sample(pj['targs'], 1))]
         plan.append((rnd.random() * sc['spread_ms'] / 1000.0, argv))
     lock = threading.Lock()
+    ser = None
+    if sc.get('sched'):
+        import harness
+        ser = harness.Serializer(os.path.join(d, 'sgate'), sc['seed'] % 100000, settle=0.008)
+        extra = dict(extra, **ser.env())
 
     def launch(delay, argv):
         time.sleep(delay)
-        r = jobdrive.run_build(bindir, pdir, trace, argv, timeout=120, extra_env=extra)
+        r = jobdrive.run_build(bindir, pdir, trace, argv, timeout=180 if ser else 120, extra_env=extra)
         r['stderr'] = r['stderr'][-3000:]
         r['stdout'] = r['stdout'][-300:]
         with lock:
@@ -90,6 +98,8 @@ def run_scenario(sc, root, bindir, focus):
         t.start()
     for t in ths:
         t.join()
+    if ser:
+        ser.close()
     failing = bool(pj['fail'])
     for r in cmds:
         name = ' '.join(r['argv'])
